@@ -1036,11 +1036,24 @@ def e6_none_safety(ctx) -> None:
     for m in eng.prog.modules.values():
         by_path[m.relpath.replace(os.sep, "/")] = m
     n = 0
+    # an assignment the checker rejects (`x = helper(x)` where the helper returns a base class of the declared `Sub | None`) leaves the variable at its
+    # declared Optional type in the checker's eyes although the value assigned is, by the checker's own account, not Optional: Optional-use diagnostics
+    # about that declared type after such an assignment are artefacts of the rejected narrowing, not witnesses of a missing value
+    unnarrowed: List[Tuple[str, int, str]] = []
+    for d in eng.types.diagnostics:
+        ma = _re.match(r'(.+?):(\d+)(?::\d+)?: error: Incompatible types in assignment \(expression has type "([^"]*)", variable has type "([^"]*)"\)', d)
+        if ma and "None" not in ma.group(3) and "Optional[" not in ma.group(3) and ("| None" in ma.group(4) or "Optional[" in ma.group(4)):
+            short_t = " | ".join(x.strip().rsplit(".", 1)[-1] for x in ma.group(4).split("|"))
+            unnarrowed.append((ma.group(1).replace(os.sep, "/"), int(ma.group(2)), short_t))
     for d in eng.types.diagnostics:
         mm = _re.match(r"(.+?):(\d+)(?::\d+)?: error: (.*?)(?:\s+\[([a-z-]+)\])?$", d)
         if not mm:
             continue
         path, line, msg, code = mm.group(1).replace(os.sep, "/"), int(mm.group(2)), mm.group(3), mm.group(4) or ""
+        if code == "union-attr" and any(p_ == path and l_ < line and f'of "{t_}"' in msg for p_, l_, t_ in unnarrowed):
+            fa = next((f for f in (by_path[path].functions if path in by_path else []) if f.name != "<module>" and f.node.lineno <= line <= getattr(f.node, "end_lineno", f.node.lineno)), None)
+            if fa is not None and any(p_ == path and fa.node.lineno <= l_ < line for p_, l_, t_ in unnarrowed):
+                continue
         m = by_path.get(path)
         if m is None:
             continue
